@@ -496,6 +496,14 @@ def run(ctx, t0):
     for f in r14.findings:
         f.rule = "C02.R4b"
     rules = [rule_table(facts), rule_rejections(facts), rule_sizes(facts), rule_carry(facts), rule_target_order(facts), r14, rule_history(facts)]
+    # a dictionary reset starts a new history: the window is emptied (shared with C09.R4)
+    from rules import C09 as _c09
+    r9 = _c09.rule_reset(facts)
+    r9.rule = "C02.R7"
+    r9.title = "a dictionary reset empties the LZMA2 window (the history of the next chunk starts empty)"
+    for f in r9.findings:
+        f.rule = "C02.R7"
+    rules.append(r9)
     expl = ("Static, framing clauses only: the reset-class table is read off the switch on (status >> 5) & 3, size terms "
             "and endianness from the provenance of the fields, reset calls from control dependence on the flags, the "
             "order of the produced-length read relative to the dictionary reset, and the completeness of a state reset "
